@@ -503,6 +503,10 @@ def roundtrip(model, m2, sigma, k, ctx):
         if m2.dataset is None:
             raise Violation('roundtrip:dataset-lost', detail=ctx)
         a, b_ = model.dataset, m2.dataset
+        # DROPped data items are not read back as numbers: compare the columns the model uses
+        keep = [c for c in a.columns if c in model.datainfo.names and not model.datainfo[c].drop and not c.startswith('_DROP')]
+        keep2 = [c for c in b_.columns if c in m2.datainfo.names and not m2.datainfo[c].drop and not c.startswith('_DROP')]
+        a, b_ = a[keep], b_[keep2]
         if list(a.columns) != list(b_.columns) or a.shape != b_.shape:
             raise Violation('roundtrip:dataset-shape', observed=(list(b_.columns), b_.shape), expected=(list(a.columns), a.shape), detail=ctx)
         import numpy as np
